@@ -402,12 +402,74 @@ def gen_image(rng, profile='c01', w=None):
     return case, meta
 
 
+def gen_io_loop(rng, w=None):
+    """a cat-like program: a loop that reads one input bit per iteration through the IO cell, branches on it, echoes
+    it (or its complement / a constant), optionally flips data and toggles one of its own jump words, and goes round
+    until the input ends (EOF termination) - gives runs of hundreds of ops with dense IO"""
+    if w is None:
+        w = rng.choice([16, 32, 32, 64, 64])
+    img = Img(w)
+    ww = img.ww
+    dw = 2 * w
+    nslots = rng.choice([16, 24, 40])
+    img.add_seg(0, 2 * nslots, 2 * nslots)
+    extra = []
+    if rng.random() < 0.4 and w >= 32:
+        st = rng.choice([PAGE - 4, PAGE, 16 * PAGE, 16 * PAGE - 2, (1 << 20), FLAT_DEFAULT - 2, FLAT_DEFAULT])
+        if img.add_seg(st, 8, 8):
+            extra.append(st)
+    free = list(range(2, nslots - 2, 2))
+    rng.shuffle(free)
+    T = free.pop()            # landing pair of the input op: slot T (bit 0) / T+1 (bit 1)
+    pre = [free.pop() for _ in range(rng.randint(0, 2)) if free]
+    body0 = [free.pop() for _ in range(rng.randint(0, 2)) if free]
+    body1 = [free.pop() for _ in range(rng.randint(0, 2)) if free]
+    scratch = [(nslots - 1) * dw + k for k in range(dw)]
+    if extra:
+        scratch += [(extra[0] << ww) + k for k in range(4 * w)]
+
+    def a(slot):
+        return slot * dw
+    head = pre[0] if pre else None
+    # op 0 -> (pre ops) -> IO cell (slot 1)
+    chain = [0] + pre
+    for i, sl in enumerate(chain):
+        nxt = a(chain[i + 1]) if i + 1 < len(chain) else dw
+        img.put_op(a(sl), rng.choice(scratch + [dw, dw + 1]), nxt)
+    img.put_op(dw, rng.choice(scratch), a(T))          # the IO op: its jump word receives the input bit
+    for b, body, slot in ((0, body0, T), (1, body1, T + 1)):
+        seq = [slot] + body
+        for i, sl in enumerate(seq):
+            nxt = a(seq[i + 1]) if i + 1 < len(seq) else dw
+            r = rng.random()
+            if i == 0 and r < 0.8:
+                f = dw + rng.choice([b, b, 1 - b, rng.randrange(2)])      # echo
+            elif r < 0.9:
+                f = rng.choice(scratch)
+            else:
+                f = a(sl) + w + (ww + 1)       # toggles its own jump word between two neighbouring slots
+            img.put_op(a(sl), f, nxt)
+            if sl != slot:
+                img.put_op(a(sl + 1), rng.choice(scratch), dw)      # neighbour slot (target of a toggled jump)
+    case = img.to_case()
+    case['version'] = rng.choice([0, 1, 2, 3])
+    case['lzma_preset'] = 0
+    n = rng.choice([0, 1, 7, 8, 9, 33, 64, 100])
+    case['input_bits'] = [rng.randrange(2) for _ in range(n)]
+    case['script'] = {}
+    case['fault'] = None
+    case['probe_words'] = []
+    return case, {'tags': ['io_loop'], 'ops': [], 'pool': [], 'in_seg_bits': [], 'wiring': []}
+
+
 def gen_input(rng):
     n = rng.choice([0, 0, 1, 2, 3, 7, 8, 9, 16, 33, 64])
     return [rng.randrange(2) for _ in range(n)]
 
 
 def gen_case(rng, profile='c01', w=None):
+    if w is None and rng.random() < 0.1:
+        return gen_io_loop(rng)
     case, meta = gen_image(rng, profile, w)
     case['input_bits'] = gen_input(rng)
     case['script'] = {}
